@@ -6,8 +6,9 @@ from typing import Any, Dict, List, Optional
 from ..core import Ctx
 from .. import outputcrawl as oc
 
-THEOREMS = ["Privacy.hidden_inherits", "Output.hidden_inherits", "Output.no_trace", "Output.no_trace_files",
-            "Output.no_trace_partial", "Output.no_trace_counterexample", "Output.private_marked"]
+THEOREMS = ["Privacy.hidden_inherits", "Output.hidden_inherits", "Output.hidden_inside", "Output.no_trace",
+            "Output.no_trace_files", "Output.private_marked", "Output.public_unmarked", "Output.no_trace_partial",
+            "Output.no_trace_counterexample", "Output.no_trace_counterexample_root"]
 RULE = ("same runs as C11 (scenario projects: hidden base of a visible class, hidden module imported from, hidden member "
         "overridden and cross-referenced, private objects at every level and by rule, hidden roots, hidden nested classes "
         "and constructors, hidden class between a class and its base; plus random Gen projects) under random lists of "
